@@ -24,6 +24,7 @@ import (
 
 	log "github.com/golang/glog"
 	"google.golang.org/grpc"
+	"github.com/openconfig/gnmi/verifhook"
 )
 
 // DEFAULT is the name of the dialer that is used if not explicitly specified in
@@ -99,6 +100,7 @@ func (m *Manager) dial(ctx context.Context, addr, dialer string, c *connection) 
 	if err == nil {
 		cc, err = d(ctx, addr, m.opts...)
 	}
+	verifhook.Point("conn.dial.result", addr)
 	if err != nil {
 		log.Infof("Error creating gRPC connection to %q: %v", addr, err)
 		m.mu.Lock()
@@ -166,6 +168,7 @@ func (m *Manager) Connection(ctx context.Context, addr, dialer string) (conn *gr
 		c.ref++
 		m.mu.Unlock()
 
+		verifhook.Point("conn.wait", addr)
 		<-c.ready
 		if c.err != nil {
 			return nil, func() {}, c.err
